@@ -98,6 +98,7 @@ pub struct Stats {
     pub nontrivial: BTreeSet<u64>,
     pub parsers: BTreeSet<String>,
     pub samples: Vec<Value>,
+    pub digests: Vec<String>,
 }
 
 impl Stats {
@@ -387,6 +388,26 @@ pub fn cases_for(p: &dyn ParserCase, e: &Entry, sentence: &str, base: &RunOut, t
                 f(mk(v, "W", Expect::Ok, 0, sentence, format!("{:?} inserted inside the gap at offset {at}", ws)));
             }
         }
+        // every whitespace variant inserted into *all* gaps at once: a sentence
+        // again, and the reference for torn / garbage faults on top of it (so
+        // that error positions are also computed behind multi-byte and
+        // multi-line whitespace)
+        for ws in &variants {
+            let mut v = sentence.to_string();
+            let mut gs2 = gs.clone();
+            gs2.reverse();
+            let mut n = 0;
+            for (a, z) in gs2 {
+                if let Some(at) = w_insertion_point(&v, a, z, p.has_layout()) {
+                    v.insert_str(at, ws);
+                    n += 1;
+                }
+            }
+            if n > 0 {
+                f(mk(v.clone(), "W", Expect::Ok, 0, sentence, format!("{:?} inserted inside every gap", ws)));
+                f(mk(v, "WREF", Expect::Ok, 0, sentence, format!("{:?} inserted inside every gap (reference for WT/WG)", ws)));
+            }
+        }
         // thorough: T and G on top of seeded stacks of W variants
         if thorough && !wcases.is_empty() {
             let mut rng = Rng::new(sub_seed(seed, 12, fnv64(sentence.as_bytes()) ^ fnv64(p.id().as_bytes())));
@@ -431,6 +452,9 @@ fn record(st: &mut Stats, p: &dyn ParserCase, case: &Case, v: &Verdict, viol: &m
     st.parsers.insert(format!("{}/{}", case.parser, case.layout));
     let h = fnv64(format!("{}|{}|{}|{}|{:?}", case.parser, case.layout, case.kind, case.input, case.expect).as_bytes());
     st.distinct.insert(h);
+    if report::digest_on() {
+        st.digests.push(format!("{idx}|{:016x}|{}", h, match v { Verdict::Holds => "holds".to_string(), Verdict::Inconclusive(w) => format!("inconclusive:{w}"), Verdict::C15 => "c15".into(), Verdict::Violation { class, .. } => format!("violation:{class}") }));
+    }
     match v {
         Verdict::Holds => {
             st.validated += 1;
@@ -498,7 +522,8 @@ fn run_item(r: &Runner, entries: &[Entry], item: &(usize, usize), thorough: bool
             record(&mut st, p, &c, &v, &mut viol, idx);
         });
     }
-    json!({"stats": st.to_json(), "violations": viol})
+    let digests = std::mem::take(&mut st.digests);
+    json!({"stats": st.to_json(), "violations": viol, "digests": digests})
 }
 
 fn items(r: &Runner, entries: &[Entry]) -> Vec<(usize, usize)> {
@@ -580,13 +605,21 @@ pub fn still_fails(r: &Runner, case: &Case, class: &str) -> bool {
 pub fn run(args: &Args) -> i32 {
     let paths = Paths { verif: args.verif.clone(), repo: args.repo.clone() };
     let t0 = crate::now_s();
-    let entries = match corpus::load(&args.verif) {
+    let mut entries = match corpus::load(&args.verif) {
         Ok(e) => e,
         Err(e) => {
             eprintln!("harness error: {e}");
             return 2;
         }
     };
+    if let Some(only) = &args.only {
+        // determinism self-test: a slice of the corpus
+        for e in entries.iter_mut() {
+            if !only.split(',').any(|o| e.id.contains(o)) {
+                e.sentences.clear();
+            }
+        }
+    }
     let r = Runner::new(args, 997);
     if let Err(e) = w_guard(&r, &entries) {
         eprintln!("harness error: {e}");
@@ -608,6 +641,10 @@ pub fn run(args: &Args) -> i32 {
             eprintln!("harness error: {:?}", errs);
             return 2;
         }
+    }
+    if let Some(out) = &args.digest_out {
+        let (n, h) = report::write_digests(&merged, Some(out));
+        println!("digest: {n} runs, hash {h:016x}");
     }
     let st = merged["stats"].clone();
     let mut violations: Vec<Violation> = merged["violations"].as_array().cloned().unwrap_or_default().iter().filter_map(Violation::from_json).collect();
